@@ -263,6 +263,48 @@ def findStagePrependAppend (f : PyFile) (start : Option Nat) (maxrange : Nat) :
   | (some mzOff, f1) => prependAppendAt f1 mzOff
 
 
+/-! ### several calls on ONE file object
+
+The helpers are documented to have the file position as their only side effect; `peRun` threads the file through a
+list of calls (optionally preceded by an absolute `fh.seek`), returning every result with the position left behind. -/
+
+inductive PeOp | mz | arch | stamps | mmz | mpe | ppa
+  deriving DecidableEq, Repr
+
+inductive PeOut
+  | mz (r : Option Nat)
+  | arch (r : Option Arch)
+  | stamps (r : Py (Option Int × Option Int))
+  | mmz (r : Option Bytes)
+  | mpe (r : Py (Option Bytes))
+  | ppa (r : Py (Option Bytes × Option Bytes))
+  deriving DecidableEq
+
+def peCall (f : PyFile) (start : Option Nat) (maxrange : Nat) : PeOp → PeOut × PyFile
+  | .mz => let r := findMzOffset f start maxrange; (.mz r.1, r.2)
+  | .arch => let r := findArchitecture f start maxrange; (.arch r.1, r.2)
+  | .stamps => let r := findCompileStamps f start maxrange; (.stamps r.1, r.2)
+  | .mmz => let r := findMagicMz f start maxrange; (.mmz r.1, r.2)
+  | .mpe => let r := findMagicPe f start maxrange; (.mpe r.1, r.2)
+  | .ppa => let r := findStagePrependAppend f start maxrange; (.ppa r.1, r.2)
+
+structure PeCall where
+  op : PeOp
+  start : Option Nat
+  seekTo : Option Nat := none
+  deriving DecidableEq, Repr
+
+/-- optional `fh.seek(p)` before a call -/
+def seekOpt (f : PyFile) : Option Nat → PyFile
+  | some p => seekNat f p
+  | none => f
+
+def peRun (maxrange : Nat) : PyFile → List PeCall → List (PeOut × Nat)
+  | _, [] => []
+  | f, c :: cs =>
+    let r := peCall (seekOpt f c.seekTo) c.start maxrange c.op
+    (r.1, r.2.tell) :: peRun maxrange r.2 cs
+
 /-! ### the same functions over an abstract file-like object
 
 `pe.py` only uses `read(n)`, `seek(off)` and `tell()`, and the library also runs these functions over the
